@@ -49,7 +49,7 @@ inductive Expr where
   -- ---- added for the LogQL metric planners (C08); additive
   | mulOp (a b : Expr)                      -- text `a * b` (e.g. `intDiv(ts, d) * d`)
   | divOp (a b : Expr)                      -- text `a / b` (e.g. `toFloat64(COUNT()) / 5.000000`)
-  | mapFilterKeys (keep : Bool) (keys : List Bytes) (m : Expr)  -- byWithoutFilterCol: `mapFilter((k,v) -> k [NOT ]IN ('a','b'), m)`
+  | mapFilterKeys (keep : Bool) (keys : List Bytes) (m : Expr)  -- byWithoutFilterCol: `mapFilter((k,v) -> k [NOT ]IN ('a','b'), m)`; `by ()`: `mapFilter((k,v) -> 0, m)`
   | mapAt (m : Expr) (key : Bytes)          -- `m['key']` (UnwrapPlanner)
   | tupleAt (name : String) (i : Nat)       -- `arr_b.2` (TopKPlanner)
   | topkSlice (isTop hasLabels : Bool) (k : Nat)  -- TopKPlanner: `arraySlice(arraySort([λ,]groupArray((par_a.value, par_a.fingerprint[, par_a.labels]))), 1, k)`
@@ -143,6 +143,8 @@ def renderExpr : Expr → Bytes
   | .mulOp x y => renderExpr x ++ b " * " ++ renderExpr y
   | .divOp x y => renderExpr x ++ b " / " ++ renderExpr y
   | .mapFilterKeys keep keys m =>
+    if keep && keys.isEmpty then b "mapFilter((k,v) -> 0, " ++ renderExpr m ++ b ")"
+    else
     b "mapFilter((k,v) -> k " ++ b (if keep then "IN" else "NOT IN") ++ b " (" ++ joinB (b ",") (keys.map quote) ++ b "), " ++
       renderExpr m ++ b ")"
   | .mapAt m key => renderExpr m ++ b "[" ++ quote key ++ b "]"
